@@ -147,7 +147,7 @@ class Scn:
         return a
 
     # ---- model side
-    def coq(self):
+    def coq(self, fx='no_fixes'):
         cd = '(mkC [%s] %s %s %s)' % (
             '; '.join('(mkF %s %s)' % (BOOL[bool(f.get('dflt'))], BOOL[bool(f.get('path'))]) for f in self.fields),
             BOOL[self.wiz], BOOL[self.skipdef], BOOL[self.skipdef and not self.wiz])
@@ -179,7 +179,7 @@ class Scn:
                 else:
                     calls.append('CEnv %s' % BOOL[bool(c[1])])
             ths.append('[%s]' % '; '.join(calls))
-        return '(scenario %s [%s])' % (cd, '; '.join(ths))
+        return '(scenario %s %s [%s])' % (fx, cd, '; '.join(ths))
 
 
 def F(dflt=False, path=False, any=False, catch_all=False):
@@ -411,6 +411,16 @@ def run(ctx):
             hook_ok = False
             ctx.broken_tie('hook H2 lacks yield points the model treats as scheduling points', sorted(need - declared))
 
+    # which proposed repairs are present in the tree under test (the model has both variants of each)
+    fixes = probe.get('fixes') or {}
+    FIDS = ['F30', 'F31', 'F32', 'F33', 'F34']
+    unknown = [f for f in FIDS if fixes.get(f) is None]
+    if unknown:
+        ctx.broken_tie('the code at the call sites of %s has neither the pinned nor the repaired shape the model knows'
+                       % unknown, {'fixes': fixes, 'error': probe.get('fixes_error')})
+    fx = '(mkX %s)' % ' '.join(BOOL[bool(fixes.get(f))] for f in FIDS)
+    ctx.extra_cov['repairs_detected_in_tree'] = {f: fixes.get(f) for f in FIDS}
+
     quick = ctx.tier == 'quick'
     bound = 2 if quick else 3
     scs = scenarios(ctx)
@@ -432,7 +442,7 @@ def run(ctx):
     for sc, res in zip(scs, results):
         if not sc.modelled or not ctx.coq_ok:
             continue
-        scn = sc.coq()
+        scn = sc.coq(fx)
         for k, rn in enumerate(res.get('runs', [])):
             if rn.get('status') == 'ok':
                 exprs.append('(show_run %s [%s])' % (scn, ';'.join(str(d[2]) for d in rn['decisions'])))
